@@ -20,9 +20,11 @@ RULE = (
 )
 BOUNDS = {
     "quick": {"max_unobserved_rows": 5, "samples": 3, "plates_per_sample": 3, "leaf_cap_per_item": retro.LEAF_CAP,
-              "fractions": retro.FRACTIONS},
+              "fractions": retro.FRACTIONS,
+              "sparse_wide_probes": "4 layouts with 11-24 rows / 3-12 plates x 11 operations, default random answers only"},
     "thorough": {"max_unobserved_rows": 6, "samples": 3, "plates_per_sample": 3, "leaf_cap_per_item": retro.LEAF_CAP,
-                 "fractions": retro.FRACTIONS},
+                 "fractions": retro.FRACTIONS,
+                 "sparse_wide_probes": "as quick, plus every single deviation from the default answers"},
 }
 ASSUMPTIONS = [
     "observation values are distinct per row, so a swapped / duplicated / altered experiment is visible",
